@@ -108,9 +108,26 @@ pub struct EdgeSpec {
     pub w: u64, // bits
     pub attr: Option<A>,
 }
+/// Alias mode (alphabet name suffix "@alias"): within one history every occurrence of the same edge
+/// specification is the SAME `Arc<Edge>` object (a caller may add an edge object twice, or add the edges
+/// another graph handed out); off: every occurrence is a fresh allocation.
+pub static ALIAS_MODE: std::sync::atomic::AtomicBool = std::sync::atomic::AtomicBool::new(false);
+thread_local! {
+    static ARC_CACHE: std::cell::RefCell<std::collections::HashMap<(N, N, u64, Option<A>), Arc<Edge<N, A>>>> = std::cell::RefCell::new(std::collections::HashMap::new());
+}
+pub fn alias_reset() {
+    if ALIAS_MODE.load(std::sync::atomic::Ordering::Relaxed) {
+        ARC_CACHE.with(|c| c.borrow_mut().clear());
+    }
+}
+
 impl EdgeSpec {
     pub fn arc(&self) -> Arc<Edge<N, A>> {
-        Arc::new(Edge { u: self.u, v: self.v, weight: f64::from_bits(self.w), attributes: self.attr })
+        let fresh = || Arc::new(Edge { u: self.u, v: self.v, weight: f64::from_bits(self.w), attributes: self.attr });
+        if ALIAS_MODE.load(std::sync::atomic::Ordering::Relaxed) {
+            return ARC_CACHE.with(|c| c.borrow_mut().entry((self.u, self.v, self.w, self.attr)).or_insert_with(fresh).clone());
+        }
+        fresh()
     }
     pub fn rust(&self) -> String {
         let w = if self.w == NAN_BITS { "f64::NAN".to_string() } else { format!("{:?}", f64::from_bits(self.w)) };
@@ -431,6 +448,7 @@ pub fn real_edge_multiset(g: &G) -> Vec<SEdge> {
 }
 
 pub fn build_real(specs: &GraphSpecs, ops: &[Op]) -> (G, Vec<ResKind>) {
+    alias_reset();
     let mut g = G::new(specs.clone());
     let mut rs = vec![];
     for o in ops {
